@@ -386,7 +386,7 @@ impl Prop for C11 {
     fn check(&self, case: &Case11, ctx: &mut Ctx) -> Verdict {
         check_case(case, ctx)
     }
-    fn extra(&self, _ctx: &mut Ctx) -> Vec<(String, Verdict)> {
+    fn extra(&self, _ctx: &mut Ctx) -> Vec<(String, Verdict, Option<Case11>)> {
         let n = safe_pairs().len();
         if n < 60 {
             eprintln!("harness error: only {n} case pairs passed validation");
